@@ -433,7 +433,12 @@ def rule_immediate(ctx):
     r.instance("periodic repin_without_collect present", ok)
     if not ok:
         r.violate(DGN, "repin", "no periodic re-pin during long disposals: the epoch cannot advance while one pass runs")
-    r.require(ndirect, 1, "cascade hand-offs")
+    if ndirect == 0 and not r.violations:
+        # not a lost anchor: the function is there and reaches no hand-off of a child at all
+        r.violate(DGN, "no-child-handoff", "no path of the cascade hands a child whose count hit zero to a destruction in the "
+                  "same pass: every level of a structure waits its own grace periods (or its children are never destructed)",
+                  b.loc(0))
+    r.require(max(ndirect, 1 if r.violations else 0), 1, "cascade hand-offs")
     return r
 
 
